@@ -308,6 +308,43 @@ fn sp_cmp(r: &Ref, a: Span, b: Span, cls: &str) -> Value {
     json!({"op":"sp_cmp","cls":cls,"zi":1,"ref":r.json(),"a":jspan(&a),"b":jspan(&b),"res":{"st":st,"o":o}})
 }
 
+fn sp_add(r: &Ref, a: Span, b: Span, sub: bool, cls: &str) -> Value {
+    let res = guard(|| match (r, sub) {
+        (Ref::Z(z), false) => a.checked_add((b, z)),
+        (Ref::Z(z), true) => a.checked_sub((b, z)),
+        (Ref::Dt(d), false) => a.checked_add((b, *d)),
+        (Ref::Dt(d), true) => a.checked_sub((b, *d)),
+        (Ref::D(d), false) => a.checked_add((b, *d)),
+        (Ref::D(d), true) => a.checked_sub((b, *d)),
+        (Ref::None, false) => a.checked_add(b),
+        (Ref::None, true) => a.checked_sub(b),
+        (Ref::H24, false) => a.checked_add(jiff::SpanArithmetic::from(b).days_are_24_hours()),
+        (Ref::H24, true) => a.checked_sub(jiff::SpanArithmetic::from(b).days_are_24_hours()),
+    });
+    let (st, out) = match &res {
+        Ok(Ok(x)) => ("ok", *x),
+        Ok(Err(_)) => ("err", Span::new()),
+        Err(_) => ("panic", Span::new()),
+    };
+    json!({"op":"sp_add","cls":cls,"zi":1,"ref":r.json(),"a":jspan(&a),"b":jspan(&b),"sub": if sub {1} else {0},"res":{"st":st,"span":jspan(&out)}})
+}
+
+fn sp_dur(r: &Ref, s: Span, cls: &str) -> Value {
+    let res = guard(|| match r {
+        Ref::Z(z) => s.to_duration(z),
+        Ref::Dt(d) => s.to_duration(*d),
+        Ref::D(d) => s.to_duration(*d),
+        Ref::None => SignedDuration::try_from(s),
+        Ref::H24 => s.to_duration(jiff::SpanRelativeTo::days_are_24_hours()),
+    });
+    let (st, sec, ns) = match &res {
+        Ok(Ok(d)) => ("ok", d.as_secs(), d.subsec_nanos()),
+        Ok(Err(_)) => ("err", 0, 0),
+        Err(_) => ("panic", 0, 0),
+    };
+    json!({"op":"sp_dur","cls":cls,"zi":1,"ref":r.json(),"span":jspan(&s),"res":{"st":st,"sec":big(sec as i128),"ns":ns}})
+}
+
 /// spans whose rounding meets month ends, DST days and unit overflow
 fn c11_span(rng: &mut Rng, time_only: bool) -> Span {
     let mut u = [0i64; 10];
@@ -384,6 +421,8 @@ fn c11_for_ref(out: &mut Out, rng: &mut Rng, r: &Ref, n: usize, cls: &str) {
         }
         let t = c11_span(rng, time_only);
         out.emit(sp_cmp(r, s, t, cls));
+        out.emit(sp_add(r, s, t, rng.chance(1, 2), cls));
+        out.emit(sp_dur(r, s, cls));
         // a near-equal pair: the same distance through different units
         if let Some(d) = r.dist(&s) {
             if let Ok(ns) = i64::try_from(d) {
